@@ -69,6 +69,10 @@ CHECKS = {
                 technique="history exploration of the real visitors: a recording visitor is run to completion and with 'return true at the k-th callback' for every k; the event log (callback kind, member tag type, value bits / view address) is compared with the model's list, for kinds + catalogue schemas",
                 text="For every image of the bounded space the complete callback sequence and every prefix (stop at the k-th callback, all k) are executed on the generated visit entry points; each non-constant member must be reported once, in schema order, with its own tag type (checked through a generated tag-type -> path overload set) and the named accessor's value/address; entries in index order; enums report their value tag or unknown, sets every choice with its bit; after a complete visit the cursor is at the end of the visited view. Also under extended wire block lengths.",
                 note="Trusted: compilers, model. get_by_tag/set_by_tag equivalence is decided by the 'tag' drivers of C01/C02."),
+    "C20": dict(category="fault_enumeration", design_ref="DESIGN.md 5 / C20",
+                technique="fault enumeration over every output I/O call of a run (LD_PRELOAD shim owning mkdir/fopen/open/write/writev/fclose/close on the output tree, cross-checked against strace): the k-th call fails for every k with each applicable errno / short write; exit status and output tree compared with the fault-free baseline; rerun determinism",
+                text="For several schemas the fault-free run's call log defines the fault space; every single call is failed in turn (EACCES/ENOSPC/EMFILE/EIO, short write then ENOSPC) in a fresh directory: exit 0 is accepted only with a tree byte-identical to the baseline, a non-zero exit needs a diagnostic, death by signal is a violation. Fault-free runs into fresh / populated directories and from another cwd must give identical trees.",
+                note="Trusted: the shim's ownership of the output I/O (verified per schema against strace counts), the dynamic linker. Read-side faults (schema file) are C09's."),
 }
 
 NOT_YET = "not built yet in this round (planned, see DESIGN.md section 5)"
